@@ -714,3 +714,49 @@ func TagEquivalence(k *fw.Case) {
 		}
 	}
 }
+
+// SoloStatement (C11): rules whose body is exactly ONE statement - a stray break / continue outside any
+// loop, directly or inside single-statement if / else blocks. Such a rule compiles, fails when it runs, and has
+// not returned: no result entry, a non-nil error.
+func SoloStatement(k *fw.Case) {
+	text := `
+rule "solo-break" salience 3 begin
+  break
+end
+rule "solo-if" salience 2 begin
+  if 1 < 2 { continue }
+end
+rule "solo-else" salience 1 begin
+  if 2 < 1 { zs = 1 } else { if 1 < 2 { break } }
+end
+`
+	obs := NewObs()
+	eng, err := NewEngineTarget(obs, text)
+	if err != nil {
+		k.Inconclusive("solo-statement text does not compile: " + trunc(err.Error(), 200))
+		return
+	}
+	pool, err := NewPoolTarget(obs, text, 1, 2, 1+k.Rng.Intn(4))
+	if err != nil {
+		k.Inconclusive("solo-statement text does not compile in a pool")
+		return
+	}
+	for _, t := range []*Target{eng, pool} {
+		for _, m := range []string{MExecute, MConcurrent, MMix, MInverse, MSel, MSelConcurrent, MDAG, MNSortMConc} {
+			c := Call{Method: m, B: true, Pool: t.Pool != nil, Names: []string{"solo-if", "solo-break", "solo-else"}, N: 1, M: 2, DAG: [][]string{{"solo-break", "solo-if"}, {"solo-else"}}}
+			out := t.Invoke(c, NewLog())
+			k.Eval(1)
+			k.Count("solo_statement_calls", 1)
+			name := m
+			if c.Pool {
+				name = "pool." + m
+			}
+			if out.Panic != nil {
+				continue // C09's subject
+			}
+			if len(out.Result) > 0 {
+				k.Violate(name+"/result", fmt.Sprintf("%s: rules whose only statement is a stray break / continue have result entries %v although none of them reached a return", name, out.Result), map[string]interface{}{"rule_text": text})
+			}
+		}
+	}
+}
